@@ -9,14 +9,15 @@ def columns {α : Type} (d n : Nat) (flat : Array α) : Option (List (List α)) 
   if flat.size != n * d then none else
   (List.range d).mapM fun a => (List.range n).mapM fun i => flat[i * d + a]?
 
-def parseNu? {α : Type} [Codec α] (s : String) : Option (Option α) :=
-  if s == "inf" then some none else (Codec.parse (α := α) s).map some
+def parseNu? {α : Type} [Codec α] (s : String) : Option (NuEv α) :=
+  if s == "inf" then some .inf else if s == "fail" then some .fail else (Codec.parse (α := α) s).map .val
 
 def showStop : Stop → String
   | .converged => "conv" | .maxIter => "maxit" | .infNu => "inf" | .tapeEnd => "tape" | .notPD => "notpd"
+  | .nuFail => "fail" | .sigmaNotPD => "chol"
 
-/-- `mvst.F d=<dim> n=<points> data=<n·d scalars, row-major> nus=<scalars or inf> tol=<scalar> maxit=<nat>`
-    →  `<stop> <k> <k·d scalars: mu iterates> <k·d² scalars: Sigma iterates, row-major> <final nu | inf>` -/
+/-- `mvst.F d=<dim> n=<points> data=<n·d scalars, row-major> nus=<scalars | inf | fail> tol=<scalar> maxit=<nat>`
+    →  `<stop> <k> <k·d scalars: mu iterates> <k·d² scalars: Sigma iterates, row-major> <final nu | inf> <warned 0|1>` -/
 def mvst (α : Type) [Sc α] [Codec α] (args : List (String × String)) : String :=
   match (getArg args "d").bind String.toNat?, (getArg args "n").bind String.toNat?,
         (getArg args "data").bind (parseList? (Codec.parse (α := α))),
@@ -32,7 +33,7 @@ def mvst (α : Type) [Sc α] [Codec α] (args : List (String × String)) : Strin
         let mus := r.iterates.flatMap (·.mu)
         let sigs := r.iterates.flatMap (fun s => s.sigma.flatten)
         let nu := match r.nu with | none => "inf" | some x => Codec.shw x
-        s!"{showStop r.stop} {r.iterates.length} {showList Codec.shw mus} {showList Codec.shw sigs} {nu}"
+        s!"{showStop r.stop} {r.iterates.length} {showList Codec.shw mus} {showList Codec.shw sigs} {nu} {showBool r.warned}"
   | _, _, _, _, _, _ => "bad-op"
 
 /-- `dof.F tag=fin|inf|nan x=<scalar> fb=<scalar>` → `fin <scalar>` | `inf` | `nan` (the `dof` after the fallback) -/
